@@ -259,3 +259,15 @@ func (fr *Frame) selectStmt(x *ssa.Select, st *State) *Val {
 	fr.bumpNow(st)
 	return &Val{K: vTuple, Elems: elems}
 }
+
+// syncOp: hook for the lock discipline layer (monitor invariants, guarded-by). Sequentially a no-op.
+func (fr *Frame) syncOp(name string, st *State, args []*Val, pos token.Pos) *Val {
+	u := fr.u
+	if len(args) > 0 && args[0].K == vTerm {
+		u.oblige(fr, st, "nil", "sync", fmt.Sprintf("(distinct %s nil)", args[0].T), pos, "sync primitive through a nil pointer")
+	}
+	if h := u.monitorHook; h != nil {
+		h(fr, name, st, args, pos)
+	}
+	return &Val{K: vNone}
+}
